@@ -7,6 +7,7 @@ import (
 	"go/types"
 	"math/big"
 	"sort"
+	"strconv"
 	"strings"
 
 	"golang.org/x/tools/go/ssa"
@@ -126,12 +127,33 @@ func isEmptyMake(v ssa.Value) bool {
 	return ok && k.Value != nil && constant.Sign(k.Value) == 0
 }
 
+// isFreshMake: make([]T, L, n) with a constant length L (room left for a header that is filled in later): what is
+// appended lands at the absolute offset L + the lengths appended so far.
+func isFreshMake(v ssa.Value) bool {
+	if sl, ok := v.(*ssa.Slice); ok && sl.Low == nil {
+		if al, isAl := sl.X.(*ssa.Alloc); isAl && al.Heap {
+			if k, ok := sl.High.(*ssa.Const); ok && k.Value != nil && constant.Sign(k.Value) >= 0 {
+				// the allocation is used for this slice only
+				if refs := al.Referrers(); refs != nil && len(*refs) == 1 {
+					return true
+				}
+			}
+		}
+	}
+	ms, ok := v.(*ssa.MakeSlice)
+	if !ok {
+		return false
+	}
+	k, ok := ms.Len.(*ssa.Const)
+	return ok && k.Value != nil && constant.Sign(k.Value) >= 0
+}
+
 // chainStartsEmpty: the append chain that produced v starts from make(T, 0, n) (so offsets are absolute).
 func chainStartsEmpty(v ssa.Value, depth int) bool {
 	if depth > 40 {
 		return false
 	}
-	if isEmptyMake(v) {
+	if isEmptyMake(v) || isFreshMake(v) {
 		return true
 	}
 	switch x := v.(type) {
@@ -364,6 +386,10 @@ func destField(fi *FuncInfo, v ssa.Value, depth int) string {
 func offsetOf(t *Term) string {
 	// slc(base, lo, hi): offset lo
 	if t.K != KSlice {
+		// the whole buffer (a parameter, a fresh make): its first byte
+		if t.K == KParam || t.K == KMake {
+			return "#0"
+		}
 		return ""
 	}
 	return offsetKey(t.A[1])
@@ -666,13 +692,23 @@ func (p *Program) CodecEvents(fn *ssa.Function) []CodecEvent {
 								ev.Prefix = pfx
 								ev.Width = len(pfx)
 								ev.Field = "prefix"
+								if ev.Off == "#0" {
+									ev.Off = "" // a prefix is identified by its text, wherever the builder puts it first
+								}
 							}
 							out = append(out, ev)
 						}
 					case "append":
 						// append(x, b1, b2): single bytes written after x
 						if len(x.Call.Args) == 2 && isByteSlice(x.Call.Args[0].Type()) {
-							if elems := VarargElems(x.Call.Args[1]); len(elems) > 0 {
+							elems := VarargElems(x.Call.Args[1])
+							for _, el := range elems {
+								if el == nil {
+									elems = nil // a local array that is not a literal argument list (var tmp [4]byte; append(b, tmp[:]...))
+									break
+								}
+							}
+							if len(elems) > 0 {
 								base := fi.chainLen(x.Call.Args[0], 0)
 								for k, el := range elems {
 									if el == nil {
@@ -703,6 +739,10 @@ func (p *Program) CodecEvents(fn *ssa.Function) []CodecEvent {
 									ev := CodecEvent{Op: "W", Width: -1, Field: innerField(src), Pos: x.Pos(), Instr: x}
 									if n := sliceOfFixedArray(x.Call.Args[1]); n > 0 {
 										ev.Width = n
+										// a local array that was filled by PutUintNN before: one write of that value (see below)
+										if src.K == KSlice && src.A[0].K == KAlloc {
+											ev.TmpAlloc = src.A[0].Val
+										}
 									}
 									// a part appended to a chain that started empty: its offset is the length so far
 									if chainStartsEmpty(x.Call.Args[0], 0) {
@@ -777,6 +817,22 @@ func (p *Program) CodecEvents(fn *ssa.Function) []CodecEvent {
 					out = append(out, CodecEvent{Op: "R", Width: 1, Field: "byte", Pos: x.Pos(), Instr: x})
 				case "(*bytes.Reader).Read":
 					out = append(out, CodecEvent{Op: "R", Width: -1, Field: innerField(fi.Term(x.Call.Args[1])), Pos: x.Pos(), Instr: x})
+				case "io.ReadFull":
+					// io.ReadFull(r, key[:]) into a fixed-size array that is the decoded field itself (an array that is a
+					// staging buffer is reported where it is decoded: Uint16(tmp[:]))
+					if len(x.Call.Args) == 2 {
+						if sl, isSl := x.Call.Args[1].(*ssa.Slice); isSl && sl.Low == nil && sl.High == nil {
+							if al, isAl := sl.X.(*ssa.Alloc); isAl {
+								if n := fixedArrayLen(al.Type().Underlying().(*types.Pointer).Elem()); n > 0 && !decodedLater(al) {
+									field := al.Comment
+									if f := allocDestField(fi, al); f != "?" {
+										field = f
+									}
+									out = append(out, CodecEvent{Op: "R", Width: n, Field: field, Pos: x.Pos(), Instr: x})
+								}
+							}
+						}
+					}
 				case "encoding/binary.Write", "encoding/binary.Read":
 					op := "W"
 					if name == "encoding/binary.Read" {
@@ -800,6 +856,16 @@ func (p *Program) CodecEvents(fn *ssa.Function) []CodecEvent {
 							field = al.Comment
 							if f := allocDestField(fi, al); f != "?" {
 								field = f
+							}
+						} else if fa, ok := mi.X.(*ssa.FieldAddr); ok && op == "R" {
+							// binary.Read(r, order, &entry.Field): the pointee is what is read
+							if pt, isPtr := fa.Type().Underlying().(*types.Pointer); isPtr {
+								dt = pt.Elem()
+							}
+							if st, isPtr := fa.X.Type().Underlying().(*types.Pointer); isPtr {
+								if sx, isStruct := st.Elem().Underlying().(*types.Struct); isStruct {
+									field = sx.Field(fa.Field).Name()
+								}
 							}
 						}
 					}
@@ -993,4 +1059,115 @@ func isByteSlice(t types.Type) bool {
 	}
 	b, ok := sl.Elem().Underlying().(*types.Basic)
 	return ok && b.Kind() == types.Uint8
+}
+
+// ShiftEncodedArray recognises a fixed-size byte array filled byte by byte with the shifts of one integer
+// (data[0] = byte(v); data[1] = byte(v >> 8); ...): every index 0..n-1 is stored exactly once, the value stored at k is
+// byte(v >> 8k) (little-endian) or byte(v >> 8(n-1-k)) (big-endian), and v has exactly 8n bits. It returns the term of
+// v, the byte order ("LE"/"BE") and the stores; ok is false for any other shape.
+func (fi *FuncInfo) ShiftEncodedArray(al *ssa.Alloc) (val *Term, order string, stores []*ssa.Store, ok bool) {
+	pt, isPtr := al.Type().Underlying().(*types.Pointer)
+	if !isPtr {
+		return nil, "", nil, false
+	}
+	n := fixedArrayLen(pt.Elem())
+	if n < 2 || al.Referrers() == nil {
+		return nil, "", nil, false
+	}
+	shifts := make([]int64, n)
+	for i := range shifts {
+		shifts[i] = -1
+	}
+	for _, r := range *al.Referrers() {
+		ia, isIA := r.(*ssa.IndexAddr)
+		if !isIA || ia.Referrers() == nil {
+			continue
+		}
+		kc, isC := ia.Index.(*ssa.Const)
+		if !isC {
+			continue
+		}
+		k := int(kc.Int64())
+		for _, r2 := range *ia.Referrers() {
+			st, isSt := r2.(*ssa.Store)
+			if !isSt || st.Addr != ssa.Value(ia) {
+				continue
+			}
+			if k < 0 || k >= n || shifts[k] >= 0 {
+				return nil, "", nil, false
+			}
+			t := fi.Term(st.Val)
+			if t.K != KConv || len(t.A) != 1 {
+				return nil, "", nil, false
+			}
+			if bits, _, isInt := isIntType(t.Typ); !isInt || bits != 8 {
+				return nil, "", nil, false
+			}
+			src := t.A[0]
+			sh := int64(0)
+			if src.K == KBin && src.S == ">>" && len(src.A) == 2 {
+				c, isConst := src.A[1].IsConst()
+				if !isConst {
+					return nil, "", nil, false
+				}
+				v, err := strconv.ParseInt(c, 10, 64)
+				if err != nil {
+					return nil, "", nil, false
+				}
+				sh, src = v, src.A[0]
+			}
+			if val == nil {
+				val = src
+			} else if val.Key() != src.Key() {
+				return nil, "", nil, false
+			}
+			shifts[k] = sh
+			stores = append(stores, st)
+		}
+	}
+	if val == nil {
+		return nil, "", nil, false
+	}
+	if bits, _, isInt := isIntType(val.Typ); !isInt || bits != 8*n {
+		return nil, "", nil, false
+	}
+	le, be := true, true
+	for k, sh := range shifts {
+		if sh != int64(8*k) {
+			le = false
+		}
+		if sh != int64(8*(n-1-k)) {
+			be = false
+		}
+	}
+	switch {
+	case le:
+		return val, "LE", stores, true
+	case be:
+		return val, "BE", stores, true
+	}
+	return nil, "", nil, false
+}
+
+// decodedLater: a slice of the local array is handed to a ByteOrder decoder (the array is a staging buffer).
+func decodedLater(al *ssa.Alloc) bool {
+	refs := al.Referrers()
+	if refs == nil {
+		return false
+	}
+	for _, r := range *refs {
+		sl, ok := r.(*ssa.Slice)
+		if !ok || sl.Referrers() == nil {
+			continue
+		}
+		for _, r2 := range *sl.Referrers() {
+			if call, ok := r2.(*ssa.Call); ok {
+				name := CalleeName(&call.Call)
+				if strings.Contains(name, "encoding/binary.littleEndian).Uint") || strings.Contains(name, "encoding/binary.bigEndian).Uint") {
+					return true
+				}
+			}
+		}
+	}
+	return false
 }
